@@ -116,7 +116,7 @@ func init() {
 			longInts := func(k int) TV {
 				l := make([]TV, k)
 				for i := range l {
-					l[i] = tvInt("int", int64(i%40))
+					l[i] = tvInt("int", int64(i)) // distinct, so that losing any single position is observable
 				}
 				return tvSlice("[]int", l...)
 			}
@@ -134,8 +134,44 @@ func init() {
 					add(cacheIn{Cache: true, Case: c, Thr: 2, Seed: 7, MissPct: 0, DropPct: 0})
 				}
 			}
+			// dedicated: several expressions on default-container fields in one cached conjunction (two long lists of
+			// equal length; a long and a short one in either order; include and exclude), probed at the first and
+			// last value of every list, on cold and warm builds
+			for _, kind := range []string{"kgroups", "compact"} {
+				shift := func(k, off int) TV {
+					l := make([]TV, k)
+					for i := range l {
+						l[i] = tvInt("int", int64(off+i))
+					}
+					return tvSlice("[]int", l...)
+				}
+				for _, L := range []int{6, 600} {
+					if L == 600 && tier != "thorough" {
+						continue // the model evaluates 600-term posting lists slowly: thorough tier only
+					}
+					c := eCase{Kind: kind, Policy: "error"}
+					c.Docs = []eDoc{
+						{ID: 1, Cons: []eConj{{{F: 0, Inc: true, V: shift(L, 0)}, {F: 3, Inc: true, V: shift(L, 10000)}}}},
+						{ID: 2, Cons: []eConj{{{F: 0, Inc: true, V: shift(L, 0)}, {F: 3, Inc: true, V: shift(3, 10000)}}}},
+						{ID: 3, Cons: []eConj{{{F: 0, Inc: true, V: shift(3, 0)}, {F: 3, Inc: false, V: shift(L, 10000)}, {F: 4, Inc: true, V: shift(2, 7)}}}},
+						{ID: 4, Cons: []eConj{{{F: 3, Inc: true, V: shift(L-1, 20000)}}, {{F: 0, Inc: false, V: shift(L+1, 100)}, {F: 4, Inc: true, V: shift(1, 8)}}}},
+					}
+					for _, a := range [][3]int{{0, 10000, 7}, {L - 1, 10000 + L - 1, 8}, {5, 10005, 7}, {10001, 10001, 8}, {0, 0, 7}, {2, 10002, 8}, {100, 20000, 8}, {100 + L, 20000 + L - 2, 8}, {99, 10003, 7}, {1, 10000 + L, 7}} {
+						c.Queries = append(c.Queries, eQuery{A: []eAssign{{F: 0, V: tvInt("int", int64(a[0]))}, {F: 3, V: tvInt("int", int64(a[1]))}, {F: 4, V: tvInt("int", int64(a[2]))}}})
+					}
+					thr := 2
+					if L == 600 {
+						thr = 512
+					}
+					add(cacheIn{Cache: true, Case: c, Thr: thr, Seed: 11, MissPct: 0, DropPct: 0})
+					add(cacheIn{Cache: true, Case: c, Thr: thr, Seed: 12, MissPct: 30, DropPct: 30})
+				}
+			}
 			for i := 0; i < n; i++ {
-				thr := []int{0, 2, 512}[i%3]
+				thr := []int{0, 2, 2}[i%3]
+				if i%9 == 2 { // the default threshold: lists of 520+ distinct values (slow in the model, so fewer)
+					thr = 512
+				}
 				big := 3
 				if thr == 512 {
 					big = 520
@@ -188,7 +224,7 @@ func init() {
 				for q := 10 + r.Intn(7); q > 0; q-- {
 					var a []eAssign
 					if r.Chance(70) {
-						a = append(a, eAssign{F: 0, V: tvInt("int", r.I64(0, 45))})
+						a = append(a, eAssign{F: 0, V: tvInt("int", pick(r, []int64{0, 1, 2, int64(big - 1), int64(big), int64(big + 1), r.I64(0, 45), r.I64(0, int64(big+3))}))})
 					}
 					if r.Chance(60) {
 						a = append(a, eAssign{F: 1, V: tvStr(pick(r, words) + " " + pick(r, words))})
